@@ -81,12 +81,28 @@ class ClockPlugin(Plugin):
                 market.get_fundamental_price(s), market.get_executed_volume(s), market.get_executed_total_price(s),
                 market.get_n_buy_order(s), market.get_n_sell_order(s))
 
+    def pre_tick(self, mon, market):
+        # the last instant at which the current time is still "now": what is recorded for it is final
+        t = market.get_time()
+        if t >= 0:
+            self.last_now = getattr(self, "last_now", {})
+            self.last_now[market.market_id] = (t, self._val(market, t))
+
     def post_tick(self, mon, market, mm, t):
         # the clock of this market just passed t-1: freeze what it recorded for t-1
         if t >= 1:
             h = self.hist[market.market_id]
             if len(h) == t - 1:
                 h.append(self._val(market, t - 1))
+            ln = getattr(self, "last_now", {}).get(market.market_id)
+            if ln is not None and ln[0] == t - 1:
+                now_reads = self._val(market, t - 1)
+                for ci in range(len(SERIES)):
+                    a, b = ln[1][ci], now_reads[ci]
+                    if a != b and not (a is None and b is None):
+                        mon.viol("C06", "history_changed_by_clock_advance",
+                                 {"market": market.name, "series": SERIES[ci], "time": t - 1, "was": a, "now_reads": b})
+                        break
         if mon.ext.get("storage_chunk_applied") and t > 0 and t % mon.ext["storage_chunk_applied"] == 0:
             mon.probe("storage_chunk_boundary_crossed")
         elif t > 0 and t % 100 == 0:
